@@ -393,6 +393,12 @@ func (s *EtcdStore) UpdateTopicConfig(ctx context.Context, cfg *metadatapb.Topic
 
 // CreatePartitions expands a topic and writes new partition state entries.
 func (s *EtcdStore) CreatePartitions(ctx context.Context, topic string, partitionCount int32) error {
+	// Mutate and persist in one critical section, like CreateTopic/DeleteTopic:
+	// otherwise a concurrent refreshSnapshot can replace the in-memory state
+	// between the two and the old snapshot is persisted while nil is returned.
+	s.persistMu.Lock()
+	defer s.persistMu.Unlock()
+
 	meta, err := s.metadata.Metadata(ctx, []string{topic})
 	if err != nil {
 		return err
@@ -421,7 +427,7 @@ func (s *EtcdStore) CreatePartitions(ctx context.Context, topic string, partitio
 	if int32(len(newPartitions)) != partitionCount-current {
 		return fmt.Errorf("metadata: expected %d new partitions, got %d", partitionCount-current, len(newPartitions))
 	}
-	if err := s.persistSnapshot(ctx); err != nil {
+	if err := s.persistSnapshotLocked(ctx); err != nil {
 		return err
 	}
 	for _, part := range newPartitions {
@@ -576,12 +582,6 @@ func (s *EtcdStore) refreshSnapshot(ctx context.Context) error {
 
 func snapshotKey() string {
 	return "/kafscale/metadata/snapshot"
-}
-
-func (s *EtcdStore) persistSnapshot(ctx context.Context) error {
-	s.persistMu.Lock()
-	defer s.persistMu.Unlock()
-	return s.persistSnapshotLocked(ctx)
 }
 
 func (s *EtcdStore) persistSnapshotLocked(ctx context.Context) error {
